@@ -48,6 +48,7 @@ import (
 	kubelib "istio.io/istio/pkg/kube"
 	"istio.io/istio/pkg/kube/multicluster"
 	"istio.io/istio/pkg/network"
+	"istio.io/istio/pkg/security"
 	"istio.io/istio/pkg/spiffe"
 	"istio.io/istio/pkg/util/sets"
 	"verifharness/internal/quiet"
@@ -177,6 +178,40 @@ spec:
     outlierDetection: {consecutive5xxErrors: 3, interval: 10s}
     loadBalancer:
       localityLbSetting: {enabled: true}
+---
+apiVersion: networking.istio.io/v1
+kind: DestinationRule
+metadata: {name: dr-hash, namespace: default}
+spec:
+  host: hb.example.com
+  trafficPolicy:
+    loadBalancer:
+      consistentHash: {httpHeaderName: x-user}
+---
+apiVersion: networking.istio.io/v1
+kind: DestinationRule
+metadata: {name: dr-tls, namespace: default}
+spec:
+  host: tls.example.com
+  trafficPolicy:
+    portLevelSettings:
+    - port: {number: 443}
+      tls: {mode: MUTUAL, clientCertificate: /etc/certs/c.pem, privateKey: /etc/certs/k.pem, caCertificates: /etc/certs/ca.pem}
+    - port: {number: 8443}
+      tls: {mode: MUTUAL, credentialName: tls-a}
+---
+apiVersion: networking.istio.io/v1
+kind: ServiceEntry
+metadata: {name: se-tls, namespace: default}
+spec:
+  hosts: [tls.example.com]
+  ports:
+  - {number: 443, name: http-tls, protocol: HTTP}
+  - {number: 8443, name: http-cred, protocol: HTTP}
+  resolution: STATIC
+  location: MESH_EXTERNAL
+  endpoints:
+  - {address: 10.5.0.1, locality: region1/zone1/sub1, network: net1}
 ---
 apiVersion: networking.istio.io/v1
 kind: DestinationRule
@@ -414,14 +449,16 @@ var keysOptional = []string{"name: dr-a,", "name: dr-a-nsb,", "name: dr-b,", "na
 	"name: vs-c-src,", "name: vs-hb-srcns,", // bits 9, 10: OPT-IN (present only when the bit is set, see keysOptIn)
 	"name: dr-sel,", "name: sc-reg,",
 	"", // bit 13: mesh-wide outboundTrafficPolicy ALLOW_ANY_DYNAMIC_DNS instead of ALLOW_ANY
-	"name: sc-egress,", "name: sc-any,"}
+	"name: sc-egress,", "name: sc-any,",
+	"", // bit 16: features.EnableDualStack
+	""} // bit 17: XDSCacheMaxSize = 6
 
 // The VirtualServices with source matches make route "80" (which carries every HTTP virtual service) uncacheable for
 // every proxy they are visible to; they are present only in the worlds that ask for them, so that route 80 is served
 // from the cache for namespace-default proxies in most worlds.
 var keysOptIn = map[int]bool{9: true, 10: true}
 
-const keysWorldBits = 16
+const keysWorldBits = 18
 
 func keysConfig(variant int) string {
 	docs := strings.Split(keysMesh, "\n---\n")
@@ -483,6 +520,7 @@ func newSDSGen(f *failer, m *meshconfig.MeshConfig, ds *pxds.DiscoveryServer) (m
 			mkSecret("default", "tls-a-cacert", map[string]string{"cacert": "cacert-default"}),
 			// a compound secret: `tls-b-cacert` is served from the ca.crt of `tls-b` (no secret of that name exists)
 			mkSecret("default", "tls-b", map[string]string{"tls.crt": "cert-b", "tls.key": "key-b", "ca.crt": "ca-b"}),
+			&corev1.ConfigMap{ObjectMeta: metav1.ObjectMeta{Name: "ca-cm", Namespace: "default"}, Data: map[string]string{"ca.crt": "ca-from-configmap"}},
 		},
 		"cluster2": {
 			mkSecret("default", "tls-a", map[string]string{"tls.crt": "cert-cluster2", "tls.key": "key-cluster2", "ca.crt": "ca-cluster2"}),
@@ -500,8 +538,12 @@ func newSDSGen(f *failer, m *meshconfig.MeshConfig, ds *pxds.DiscoveryServer) (m
 
 func newKeysWorld(variant int) *keysWorld {
 	features.XDSCacheMaxSize = 60000
+	if variant&(1<<17) != 0 {
+		features.XDSCacheMaxSize = 6 // the real generators meet LRU eviction in every typed cache
+	}
 	features.EnableCDSCaching, features.EnableRDSCaching = true, true
-	features.EnableIPAutoallocate = false // ServiceEntries without addresses get 240.240.x.y (DNS capture matters)
+	features.EnableDualStack = variant&(1<<16) != 0 // ISTIO_DUAL_STACK
+	features.EnableIPAutoallocate = false           // ServiceEntries without addresses get 240.240.x.y (DNS capture matters)
 	f := &failer{}
 	m := mesh.DefaultMeshConfig()
 	m.OutboundTrafficPolicy = &meshconfig.MeshConfig_OutboundTrafficPolicy{Mode: meshconfig.MeshConfig_OutboundTrafficPolicy_ALLOW_ANY}
@@ -583,7 +625,8 @@ var keyAttrs = []string{"namespace", "labels-tier", "labels-patched", "labels-sc
 	"node", "type", "version", "flag-hbone-off", "flag-http10", "flag-dnscapture", "flag-dnsauto", "flag-certs", "dnsdomain",
 	"flag-proxyconfig", "flag-pkp-qat", "flag-pkp-cryptomb",
 	"labels-reg", "flag-grpc", "flag-ipv6", "flag-preserve-case", "flag-dnsauto-only",
-	"labels-egress", "labels-any"}
+	"labels-egress", "labels-any",
+	"flag-filecred", "flag-credsock", "flag-noattempt", "flag-xfh", "flag-dualstack"}
 
 // attribute groups that only matter in combination (e.g. DNS auto-allocation is used iff capture AND auto-allocate):
 // every world serves each group in sequence from one cache
@@ -677,6 +720,35 @@ func (p pattrs) with(attr string) pattrs {
 }
 
 func (w *keysWorld) proxy(a pattrs, id string) *model.Proxy {
+	md := metadataOf(a)
+	p := &model.Proxy{
+		ID:               id + "." + a.ns,
+		Type:             a.typ,
+		ConfigNamespace:  a.ns,
+		Labels:           a.labels,
+		Metadata:         md,
+		IPAddresses:      ipsOf(a),
+		Locality:         &corev3.Locality{Region: a.locality[0], Zone: a.locality[1], SubZone: a.locality[2]},
+		DNSDomain:        a.dnsDom,
+		VerifiedIdentity: &spiffe.Identity{TrustDomain: "cluster.local", Namespace: a.ns, ServiceAccount: "sa-client"},
+	}
+	return w.s.SetupProxy(p)
+}
+
+// nodeOf is the xDS Node a proxy with these attributes sends in its first request (for the real initConnection).
+func nodeOf(a pattrs, id string) *corev3.Node {
+	dom := a.dnsDom
+	if dom == "" {
+		dom = a.ns + ".svc.cluster.local"
+	}
+	return &corev3.Node{
+		Id:       string(a.typ) + "~" + ipsOf(a)[0] + "~" + id + "." + a.ns + "~" + dom,
+		Metadata: metadataOf(a).ToStruct(),
+		Locality: &corev3.Locality{Region: a.locality[0], Zone: a.locality[1], SubZone: a.locality[2]},
+	}
+}
+
+func metadataOf(a pattrs) *model.NodeMetadata {
 	md := &model.NodeMetadata{
 		Namespace:    a.ns,
 		Network:      network.ID(a.network),
@@ -714,6 +786,29 @@ func (w *keysWorld) proxy(a pattrs, id string) *model.Proxy {
 		// a ProxyConfig that says nothing about private key providers
 		md.ProxyConfig = &model.NodeMetaProxyConfig{Concurrency: nil, StatusPort: 15020}
 	}
+	if a.flags["flag-filecred"] || a.flags["flag-credsock"] {
+		md.Raw = map[string]any{}
+		if a.flags["flag-filecred"] {
+			md.Raw[security.CredentialFileMetaDataName] = "true"
+		}
+		if a.flags["flag-credsock"] {
+			md.Raw[security.CredentialMetaDataName] = "true"
+		}
+	}
+	if a.flags["flag-noattempt"] || a.flags["flag-xfh"] {
+		if md.ProxyConfig == nil {
+			md.ProxyConfig = &model.NodeMetaProxyConfig{}
+		}
+		if md.ProxyConfig.ProxyHeaders == nil {
+			md.ProxyConfig.ProxyHeaders = &meshconfig.ProxyConfig_ProxyHeaders{}
+		}
+		if a.flags["flag-noattempt"] {
+			md.ProxyConfig.ProxyHeaders.AttemptCount = &meshconfig.ProxyConfig_ProxyHeaders_AttemptCount{Disabled: wrapperspb.Bool(true)}
+		}
+		if a.flags["flag-xfh"] {
+			md.ProxyConfig.ProxyHeaders.XForwardedHost = &meshconfig.ProxyConfig_ProxyHeaders_XForwardedHost{Enabled: wrapperspb.Bool(true)}
+		}
+	}
 	if a.flags["flag-grpc"] {
 		md.Generator = "grpc"
 	}
@@ -721,28 +816,26 @@ func (w *keysWorld) proxy(a pattrs, id string) *model.Proxy {
 		if md.ProxyConfig == nil {
 			md.ProxyConfig = &model.NodeMetaProxyConfig{}
 		}
-		md.ProxyConfig.ProxyHeaders = &meshconfig.ProxyConfig_ProxyHeaders{PreserveHttp1HeaderCase: wrapperspb.Bool(true)}
+		if md.ProxyConfig.ProxyHeaders == nil {
+			md.ProxyConfig.ProxyHeaders = &meshconfig.ProxyConfig_ProxyHeaders{}
+		}
+		md.ProxyConfig.ProxyHeaders.PreserveHttp1HeaderCase = wrapperspb.Bool(true)
 	}
 	if a.flags["flag-certs"] {
 		md.TLSClientCertChain, md.TLSClientKey, md.TLSClientRootCert = "/c/chain.pem", "/c/key.pem", "/c/root.pem"
 	}
-	p := &model.Proxy{
-		ID:               id + "." + a.ns,
-		Type:             a.typ,
-		ConfigNamespace:  a.ns,
-		Labels:           a.labels,
-		Metadata:         md,
-		IPAddresses:      ipsOf(a),
-		Locality:         &corev3.Locality{Region: a.locality[0], Zone: a.locality[1], SubZone: a.locality[2]},
-		DNSDomain:        a.dnsDom,
-		VerifiedIdentity: &spiffe.Identity{TrustDomain: "cluster.local", Namespace: a.ns, ServiceAccount: "sa-client"},
+	if len(ipsOf(a)) > 1 {
+		md.InstanceIPs = ipsOf(a)
 	}
-	return w.s.SetupProxy(p)
+	return md
 }
 
 func ipsOf(a pattrs) []string {
 	if a.flags["flag-ipv6"] {
 		return []string{"2001:db8::9"}
+	}
+	if a.flags["flag-dualstack"] {
+		return []string{"10.9.9.9", "2001:db8::9"}
 	}
 	return []string{"10.9.9.9"}
 }
@@ -793,7 +886,8 @@ func (w *keysWorld) generateWith(gs genSet, p *model.Proxy) map[string]proto.Mes
 	}
 	sds, _, err := gs.sds.Generate(p,
 		&model.WatchedResource{TypeUrl: v3.SecretType, ResourceNames: sets.New("kubernetes://tls-a", "kubernetes://tls-a-cacert",
-			"kubernetes://ns-b/tls-a", "kubernetes://default/tls-a", "kubernetes://missing", "kubernetes://tls-b", "kubernetes://tls-b-cacert")}, req)
+			"kubernetes://ns-b/tls-a", "kubernetes://default/tls-a", "kubernetes://missing", "kubernetes://tls-b", "kubernetes://tls-b-cacert",
+			"configmap://default/ca-cm-cacert", "kubernetes-gateway://default/tls-a")}, req)
 	if err != nil {
 		panic(err)
 	}
@@ -938,7 +1032,13 @@ func genKeys(seed uint64, n int, path string) {
 			if r.Chance(2, 3) {
 				world &= r.Intn(1 << keysWorldBits) // mostly few configs dropped
 			}
-			world &^= 256 | 1<<9 | 1<<10 | 1<<13
+			world &^= 256 | 1<<9 | 1<<10 | 1<<13 | 1<<16 | 1<<17
+			if r.Chance(1, 6) {
+				world |= 1 << 16 // ISTIO_DUAL_STACK
+			}
+			if r.Chance(1, 6) {
+				world |= 1 << 17 // tiny LRU
+			}
 			if r.Chance(1, 2) {
 				world |= 256 // mesh-wide default private key provider
 			}
@@ -959,6 +1059,14 @@ func genKeys(seed uint64, n int, path string) {
 		out.Line("case", strconv.Itoa(c), strconv.Itoa(world), strconv.Itoa(base))
 		for _, a := range keyAttrs {
 			out.Line("pair", a, wire.Pick(r, []string{"pq", "qp"}))
+		}
+		// proxies differing in several attributes at once
+		for k := 0; k < 5; k++ {
+			var as []string
+			for len(as) < 2+r.Intn(3) {
+				as = append(as, wire.Pick(r, keyAttrs))
+			}
+			out.Line("pairm", strings.Join(as, ","), wire.Pick(r, []string{"pq", "qp"}))
 		}
 		// several proxies served in sequence from one cache
 		for _, combo := range keyCombos {
@@ -1023,6 +1131,17 @@ func execKeys(opsPath, outPath string) {
 					bump(f[1]+"/"+t, hit)
 				}
 				out.Line(res)
+			case f[0] == "pairm" && len(f) == 3 && w != nil:
+				q := base
+				for _, a := range strings.Split(f[1], ",") {
+					q = q.with(a)
+				}
+				first, second := base, q
+				if f[2] == "qp" {
+					first, second = q, base
+				}
+				res, _ := w.runPair(first, second)
+				out.Line(res)
 			case f[0] == "seq" && len(f) == 2 && w != nil:
 				out.Line(w.runSeq(base, strings.Split(f[1], ",")))
 			default:
@@ -1077,6 +1196,19 @@ func oracleKeys(opsPath, outPath string) {
 			defer w.close()
 			base := basePattrs(bv)
 			for _, f := range c[1:] {
+				if f[0] == "pairm" && len(f) == 3 {
+					q := base
+					for _, a := range strings.Split(f[1], ",") {
+						q = q.with(a)
+					}
+					for _, dir := range [][2]pattrs{{base, q}, {q, base}} {
+						if res, _ := w.runPair(dir[0], dir[1]); res != "eq" {
+							verdict = fmt.Sprintf("FAIL shared-entry attr=%s world=%d base=%d %s", strings.ReplaceAll(f[1], ",", "+"), wv, bv, res)
+							return
+						}
+					}
+					continue
+				}
 				if f[0] == "seq" && len(f) == 2 {
 					if res := w.runSeq(base, strings.Split(f[1], ",")); res != "eq" {
 						verdict = fmt.Sprintf("FAIL shared-entry seq=%s world=%d base=%d %s", f[1], wv, bv, res)
